@@ -4,6 +4,7 @@ mod est;
 mod fy;
 mod invhash;
 mod mle;
+mod pmh;
 mod tracker;
 mod util;
 
@@ -19,6 +20,9 @@ fn main() {
         "invhash-search" => invhash::search(rest),
         "invhash-replay" => invhash::replay(rest),
         "est-cases" => est::cases(rest),
+        "pmh-cases" => pmh::cases(rest),
+        "pmh-props" => pmh::props(rest),
+        "pmh-props-replay" => pmh::props_replay(rest),
         "mle-cases" => mle::cases(rest),
         "mle-replay" => mle::replay(rest),
         "fy-cases" => fy::cases(rest),
